@@ -195,9 +195,29 @@ def hash_collision_pairs(ctx):
     ctx.count("pairs differing in one value with colliding Python hashes", n)
 
 
+def source_reading(ctx):
+    """arch.py read with ast (harness/gen/arch_reader.py): the fields __eq__ / __hash__ look at, how the zone index is built and read"""
+    import os
+    from gen import arch_reader
+    from vcommon import paths
+    try:
+        info = arch_reader.analyse(os.path.join(paths.REPO, "src/bloqade/shuttle/arch.py"))
+    except Exception as e:
+        ctx.obligation("source: arch.py can be read by the identity reader", False, f"{type(e).__name__}: {e}"[:300])
+        return
+    ctx.extra["source_identity"] = {k: v for k, v in info.items() if k != "problems"}
+    obs = arch_reader.obligations(info)
+    for name, ok, detail in obs:
+        ctx.obligation(name, ok, detail[:300])
+    if all(o[1] for o in obs):
+        ok, log = coqrun.compile_lemma_file(ctx.bdir, "Gen_C13_src", arch_reader.coq_file(info))
+        ctx.obligation("Gen_C13_src: equality / hash look at the model's tables (compiled)", ok, log[-400:])
+
+
 def run(ctx):
     from bloqade.shuttle.arch import ArchSpec
     reflect_fields(ctx)
+    source_reading(ctx)
     hash_collision_pairs(ctx)
     ctx.rule = ("layouts over a pool of 6 grids (incl. a view equal to its parent and a grid with an empty axis) and names a,b,c,s,t with every "
                 "field varied independently (static/special tables incl. insertion order, three name sets): all pairs for ==/hash/model, all "
